@@ -189,7 +189,7 @@ func graphs() [][]*triple.Triple {
 	a, b, c := bqlm.NA, bqlm.NB, bqlm.NC
 	p, p1, p2 := bqlm.PImm, bqlm.PT1, bqlm.PT2
 	return [][]*triple.Triple{
-		{T(a, p, model.ON(b)), T(b, p, model.ON(c)), T(c, p, model.ON(a)), T(a, p1, model.ON(b)), T(a, p2, model.OL(bqlm.LInt))},
+		{T(a, p, model.ON(b)), T(b, p, model.ON(c)), T(c, p, model.ON(a)), T(a, p1, model.ON(b)), T(a, p2, model.OL(bqlm.LInt)), T(b, bqlm.PT1Z, model.ON(c))}, // the last one: the instant of p1 written in another zone
 		{T(a, p, model.OL(bqlm.LInt)), T(a, p, model.ON(b)), T(a, p, model.OP(p1)), T(b, p1, model.OP(p2)), T(a, p1, model.OP(p1))},
 		{T(a, p, model.ON(a)), T(a, p1, model.ON(a)), T(c, p2, model.OP(p2)), T(a, bqlm.QT2, model.ON(b))},
 		{T(a, p, model.ON(b))},
